@@ -203,8 +203,16 @@ def _work(sim: Sim, job: tuple, fnd: list[dict], stop_path: str) -> dict:
                         elif v["oracle"] in seen_oracles:
                             res["stats"].hit("violations_unshrunk")
                         else:
-                            seen_oracles.add(v["oracle"])
-                            res["violations"].append(_confirm_and_shrink(sim, zyg, executed, trace, v, out.digest, do_shrink))
+                            vr = _confirm_and_shrink(sim, zyg, executed, trace, v, out.digest, do_shrink)
+                            # seen once here, but not reproducible from a pristine process - neither alone nor after this worker's
+                            # whole history: nothing a replay file could show. Counted and kept aside, not reported as a violation
+                            # (unless the history kept was truncated: then the pristine run proves nothing)
+                            vr["unconfirmed"] = (not vr["pristine"]) and len(executed) < 6000
+                            if not vr["unconfirmed"]:
+                                seen_oracles.add(v["oracle"])
+                            else:
+                                res["stats"].hit("outcomes.unconfirmed_observation_" + v["oracle"])
+                            res["violations"].append(vr)
                     if len(executed) < 6000:
                         executed.append(trace)
             except HarnessTimeout:
@@ -331,6 +339,7 @@ def run_batch(sim: Sim, tier: str, seed: int, runs: int | None = None, workers: 
     sigs: set[int] = set()
     samples: list[dict] = []
     violations: list[dict] = []
+    unconfirmed: list[dict] = []
     known: dict[str, int] = {}
     errors: list[str] = []
     timeouts = 0
@@ -342,7 +351,8 @@ def run_batch(sim: Sim, tier: str, seed: int, runs: int | None = None, workers: 
         sigs |= r["sigs"]
         if len(samples) < 3:
             samples.extend(r["samples"][: 3 - len(samples)])
-        violations.extend(r["violations"])
+        violations.extend(v for v in r["violations"] if not v.get("unconfirmed"))
+        unconfirmed.extend(v for v in r["violations"] if v.get("unconfirmed"))
         for w in r["known"]:
             known[w] = known.get(w, 0) + 1
         errors.extend(r["errors"])
@@ -367,6 +377,14 @@ def run_batch(sim: Sim, tier: str, seed: int, runs: int | None = None, workers: 
         with open(path, "w") as f:
             json.dump(jsonable(v), f, indent=1)
         reported.append(path)
+    for u in unconfirmed:
+        udir = os.path.join(env.VERIF, "out", "unconfirmed", sim.pid)
+        os.makedirs(udir, exist_ok=True)
+        upath = os.path.join(udir, f"{seed}-{u['run']}-{u['case']}-{u['expect']['oracle']}.json")
+        with open(upath, "w") as f:
+            json.dump(jsonable(u), f, indent=1)
+        print(f"UNCONFIRMED-OBSERVATION property={sim.pid} oracle={u['expect']['oracle']} file={upath} (seen once in a worker process; "
+              f"not reproducible from a pristine process, alone or after the worker's whole history: not reported as a violation)")
     for w, n in sorted(known.items()):
         print(f"KNOWN-FINDING: property={sim.pid} {w} (matched {n}x)")
     for path in reported:
